@@ -80,6 +80,7 @@ class ParsedContract(object):
         self.ghost_bindings = {}
         self.foreign = {}
         self.post_hints = []
+        self.call_hints = {}
         self.canaries = []
         self.pre = []           # ordered entry clauses: requires / split / use / unfold
         for kind, call in clauses:
@@ -119,6 +120,10 @@ class ParsedContract(object):
             elif kind == 'hint':
                 if isinstance(call.args[0], ast.Constant) and call.args[0].value == 'post':
                     self.post_hints.append(call.args[2])
+                elif isinstance(call.args[0], ast.Constant) and call.args[0].value == 'call':
+                    # hint('call', '<callee contract name>', e): e is evaluated in the caller's state
+                    # just before a call that is replaced by that contract
+                    self.call_hints.setdefault(ast.literal_eval(call.args[1]), []).append(call.args[2])
                 else:
                     self.loop(call.args[0]).hints.append((ast.literal_eval(call.args[1]), call.args[2]))
             elif kind == 'body_ensures':
@@ -445,6 +450,8 @@ class ContractUse(object):
                 I.pure -= 1
         I.called_contracts.add('%s[%s]' % (self.cdef.target, self.cdef.name))
         where = 'call %s' % self.cdef.target
+        for h in getattr(I, 'call_hints', {}).get(self.cdef.name, []):
+            I.eval_clause_value(h, dict(getattr(I, 'loop_ghost', None) or {}))
         fr = Frame(dict(env), self.cdef.fn.__globals__, parent=None, fname='contract:' + self.cdef.name,
                    contract_mode=True)
         saved_frame, saved_entry = I.frame, I.entry_snapshot
@@ -525,6 +532,26 @@ class ContractUse(object):
                 fr.env['result'] = res
                 for af in also_facts:
                     I.assume(af)
+                # ensures of the conjunctive contracts (under their requires), same parameter names
+                for bname in pc.options.get('also', []):
+                    for cd2 in dsl.CONTRACTS.get(self.cdef.target, []):
+                        if cd2.name != bname:
+                            continue
+                        pb = parsed(cd2)
+                        if pb.ghosts or not pb.ensures:
+                            continue
+                        try:
+                            rs = []
+                            for r in pb.requires:
+                                bt = I.bool_term(I.eval(r))
+                                rs.append(z3.BoolVal(bt) if isinstance(bt, bool) else bt)
+                            es = []
+                            for e in pb.ensures:
+                                bt = I.bool_term(I.eval(e))
+                                es.append(z3.BoolVal(bt) if isinstance(bt, bool) else bt)
+                            I.assume(z3.Implies(z3.And(*rs) if rs else z3.BoolVal(True), z3.And(*es)))
+                        except OutOfReach:
+                            I.st.notes.append('dropped conjunctive postcondition of %s' % bname)
                 for e in pc.ensures:
                     try:
                         bt = I.bool_term(I.eval(e))
@@ -611,6 +638,7 @@ def run_unit(cdef, config=None, callee_contracts=None):
         for cd1 in (cds if isinstance(cds, list) else [cds]):
             uses.setdefault(cfn.__code__, []).append(ContractUse(cd1))
     I.ghost_bindings = pc.ghost_bindings
+    I.call_hints = pc.call_hints
 
     def lookup(f, args, kwargs):
         if f.__code__ is fn.__code__ and not pc.options.get('recursive'):
@@ -623,6 +651,10 @@ def run_unit(cdef, config=None, callee_contracts=None):
         for u in cands:
             if u.cdef is cdef:
                 continue
+            if u.cdef.name in pc.options.get('inline', []) or u.cdef.target in pc.options.get('inline', []):
+                continue        # option(inline=[...]): the real body is executed instead of this contract
+            if 'only' in pc.options and u.cdef.name not in pc.options['only']:
+                continue        # option(only=[...]): every other callee is executed, not summarised
             if u.pc.ghosts and u.cdef.name not in I.ghost_bindings:
                 continue        # no ghost instantiation declared: the callee is inlined
             if u.matches(I, f, args, kwargs):
@@ -678,7 +710,7 @@ def run_unit(cdef, config=None, callee_contracts=None):
         k = (ob.goal.get_id(), tuple(p.get_id() for p in ob.pc))
         if k in seen:
             continue
-        if n_unknown >= 2:
+        if n_unknown >= int(os.environ.get("PYVC_MAX_UNKNOWN", "2")):
             # the unit is undecided already: do not burn the budget on the rest
             rec = ObRecord(ob)
             rec.status, rec.detail = 'unknown', 'skipped after earlier unknowns'
